@@ -2,6 +2,7 @@ package vc
 
 import (
 	"fmt"
+	"sort"
 	"go/ast"
 	"go/token"
 	"go/types"
@@ -575,7 +576,7 @@ func (x *Exec) havocLoop(st *State, env *Env, ef *loopEffects) {
 			x.freshInto(st, lp, lt, lp)
 		})
 	}
-	for o := range ef.objs {
+	for _, o := range sortedObjs(ef.objs) {
 		if p, _, ok := env.lookup(o); ok && p != "" {
 			havocPath(p, o.Type())
 		} else if v, ok := o.(*types.Var); ok && strings.HasPrefix(v.Name(), "g_") {
@@ -583,7 +584,7 @@ func (x *Exec) havocLoop(st *State, env *Env, ef *loopEffects) {
 		}
 	}
 	// ghost variables updated by anchors inside the loop are havoced too (conservatively: all ghosts)
-	for p := range st.vars {
+	for _, p := range sortedKeys(st.vars) {
 		if strings.HasPrefix(p, "ghost:") && x.ghostInLoop[p] {
 			ti := st.vars[p].(Scalar).TI
 			st.vars[p] = Scalar{c.fresh(p, ti.sort()), ti}
@@ -1159,4 +1160,18 @@ func (x *Exec) checkAutoArr(next *State, lname string, p token.Pos) {
 		goal := or(eq(sv.Arr, a.entryArr), app(">=", sv.Arr, lf.alloc))
 		x.fc.oblige("inv.pres", lname+".auto-array."+a.path, x.props, x.pos(p), next.pc, goal, "slice "+a.path+" still points to its entry array or a fresh one")
 	}
+}
+
+func sortedObjs(m map[types.Object]bool) []types.Object {
+	out := make([]types.Object, 0, len(m))
+	for o := range m {
+		out = append(out, o)
+	}
+	sort.Slice(out, func(i, j int) bool {
+		if out[i].Pos() != out[j].Pos() {
+			return out[i].Pos() < out[j].Pos()
+		}
+		return out[i].Name() < out[j].Name()
+	})
+	return out
 }
